@@ -248,6 +248,55 @@ func DataWalk(p *core.Prog, r *core.Report) {
 				recCalls = append(recCalls, c)
 			}
 		})
+		// the descent reaches the members of slices and of maps: one recursive call is fed from Index, one from
+		// MapIndex (an arm that answers before it gets there compares no members at all)
+		feeds := map[string]bool{}
+		// (an arm may have been moved into a helper that calls back: those calls count for this clause)
+		memberCalls := append([]*ssa.Call{}, recCalls...)
+		core.EachInstr(g, func(i ssa.Instruction) {
+			c, ok := i.(*ssa.Call)
+			if !ok {
+				return
+			}
+			h := core.StaticCallee(c)
+			if h == nil || h == g || !p.InSubject(h) {
+				return
+			}
+			core.EachInstr(h, func(j ssa.Instruction) {
+				if c2, ok := j.(*ssa.Call); ok && core.StaticCallee(c2) == g {
+					memberCalls = append(memberCalls, c2)
+				}
+			})
+		})
+		for _, rc := range memberCalls {
+			for _, a := range rc.Call.Args {
+				var walk func(v ssa.Value, d int)
+				walk = func(v ssa.Value, d int) {
+					if v == nil || d > 5 {
+						return
+					}
+					if c, ok := v.(*ssa.Call); ok {
+						if h := core.StaticCallee(c); h != nil {
+							switch core.QualName(h) {
+							case "reflect.Value.Index":
+								feeds["slices"] = true
+							case "reflect.Value.MapIndex":
+								feeds["maps"] = true
+							}
+						}
+						for _, x := range c.Call.Args {
+							walk(x, d+1)
+						}
+					}
+				}
+				walk(a, 0)
+			}
+		}
+		if feeds["slices"] && feeds["maps"] {
+			r.OK(rule, key+":members", p.Pos(g.Pos()), "the members of slices and the members of maps are compared by recursive calls")
+		} else {
+			r.Bad(rule, key+":members", p.Pos(g.Pos()), fmt.Sprintf("the descent no longer compares the members of both kinds of containers (slices: %v, maps: %v): containers whose members are equal by value but not identical are never equal", feeds["slices"], feeds["maps"]))
+		}
 		var vp *ssa.Parameter
 		for k, prm := range g.Params {
 			if !strings.HasPrefix(prm.Type().Underlying().String(), "map[") {
